@@ -18,3 +18,8 @@ impl Component for Vel { type Storage = VecStorage<Self>; }
 pub fn g(mut s: WriteStorage<Vel>) {
     let _ = s.as_mut_slice();
 }
+pub fn h(mut s: WriteStorage<Vel>) {
+    { let _ = Join::join(&mut s); }
+    { let _ = LendJoin::lend_join(&mut s); }
+    { let _ = ParJoin::par_join(&mut s); }
+}
